@@ -21,6 +21,11 @@ def cells(tier):
                 skip=lambda s, rn, dn, cn, o: (cn == "coro" and rn != "A2") or (len(o) == 1) != (q and rn == "A2|M3/2" and s == 2 and "+" in dn))
     out += grid(MON, [2], ["A2", "M3/2"], ["cancel0", "cancelM0", "call", "call+flush"], ["partial", "slowccb", "slowecb"], [["ret"]])
     out += grid(MON, ["inf"], ["A2|M3/2"], ["cancel0", "call", "gac"], ["plain"], [["ret"]] if q else [["ret", "exc"]])
+    for size in [2, 3]:
+        sc = scen(pool(size), [[A("A", 3)], [cancel(rid("A", 0))], [FLUSH]], outcomes=["ret", "exc"], ecb="plain", ccb="slow", slow_ids=[0])
+        out.append(cell(f"s{size} A3 cancel0 flush slowccb0 ret/exc", sc, MON))
+    sc = scen(pool(2), [[A("A", 2)], [cancel(rid("A", 0))], [FLUSH], [["cancel_op", 2]]], outcomes=["ret"], ecb="slow", ccb="slow", slow_ids=[0])
+    out.append(cell("s2 A2 cancel0 flush flush-caller-cancelled slowcbs", sc, MON))
     # absorbing workers: a cancelled coroutine that swallows the cancellation ends normally
     for size in [2]:
         sc = scen(pool(size), [[A("A", 2, worker="absorb")], [cancel(rid("A", 0))], [cancel(rid("A", 1))]],
